@@ -22,6 +22,7 @@
 package main
 
 import (
+	"encoding/json"
 	"fmt"
 	"go/ast"
 	"go/parser"
@@ -487,6 +488,39 @@ func main() {
 	changed := err != nil || string(old) != b.String()
 	if changed {
 		if err := os.WriteFile(path, []byte(b.String()), 0o644); err != nil {
+			die(token.NoPos, "%v", err)
+		}
+	}
+	// the triggers of every rule, for the harness (so that its sweeps cannot go stale): per converter the strings of
+	// its text predicates, the Go names of its errors.Is targets, its helper predicates and its pre-steps
+	type trig struct {
+		Pre     []string `json:"pre"`
+		Strings []string `json:"strings"`
+		Targets []string `json:"targets"`
+		Helpers []string `json:"helpers"`
+	}
+	trigs := map[string]trig{}
+	for _, c := range convs {
+		t := trig{Pre: c.pre}
+		for _, cc := range c.cases {
+			for _, a := range cc.atoms {
+				switch a.kind {
+				case "text":
+					t.Strings = append(t.Strings, a.list...)
+				case "is":
+					t.Targets = append(t.Targets, a.list...)
+				case "helper":
+					t.Helpers = append(t.Helpers, a.name)
+				}
+			}
+		}
+		trigs[c.coqName] = t
+	}
+	js, _ := json.MarshalIndent(trigs, "", " ")
+	js = append(js, '\n')
+	jpath := filepath.Join(outDir, "convrules.json")
+	if oldj, err := os.ReadFile(jpath); err != nil || string(oldj) != string(js) {
+		if err := os.WriteFile(jpath, js, 0o644); err != nil {
 			die(token.NoPos, "%v", err)
 		}
 	}
